@@ -93,6 +93,13 @@ AllFreqs(cs, wmax) == UNION {SrcFreqs(cs[i], wmax) : i \in DOMAIN cs}
 RECURSIVE SortR(_)
 SortR(S) == IF S = {} THEN <<>> ELSE LET m == CHOOSE x \in S : \A y \in S : RLe(x, y) IN <<m>> \o SortR(S \ {m})
 
+\* frequencies that coincide within the resolution are analysed once (the smaller one stands for the group)
+RECURSIVE MergeSorted(_,_,_)
+MergeSorted(sq, res, last) == IF sq = <<>> THEN <<>>
+                              ELSE IF last # <<>> /\ RLe(RSub(Head(sq), last[1]), res) THEN MergeSorted(Tail(sq), res, last)
+                              ELSE <<Head(sq)>> \o MergeSorted(Tail(sq), res, <<Head(sq)>>)
+FreqList(cs, wmax, res) == MergeSorted(SortR(AllFreqs(cs, wmax)), res, <<>>)
+
 \* ----------------------------------------------------------- solving with pi-monomials
 \* the network in which only the sources carrying pi^(-k) are active
 Mono(br, k) == [i \in DOMAIN br |-> IF br[i].e.pik = k \/ CIsZero(br[i].e.src) THEN br[i]
